@@ -1,21 +1,22 @@
 SPECIFICATION GenSpec
 CONSTANTS
-  Replicas = {a, b}
+  Replicas = {a, b, c}
   Writers = {a, b}
-  MaxC = 4
+  MaxC = 2
   MaxSnap = 2
-  MaxBatch = 3
+  MaxBatch = 2
   AllowDup = FALSE
   AllowNoPath = TRUE
   AllowStale = FALSE
   WholeOnly = FALSE
-  Sizes = {1, 2}
+  Sizes = {1}
   FixCommonSnapshot = TRUE
   Dev_StalePathReuse = FALSE
-  GenDepth = 9
+  GenDepth = 0
   GenHistory = FALSE
   GenReject = FALSE
   GenOnlyAfterReject = FALSE
   GenOnlyStale = FALSE
+VIEW LoadView
 INVARIANT EmitLoad
 CHECK_DEADLOCK FALSE
